@@ -341,5 +341,46 @@ def plan_C12(run):
     run.validate(tr, "TraceCipher", max_events=6000, parallel=6)
 
 
-PLANS = {"C06": plan_C06, "C07": plan_C07, "C08": plan_C08, "C09": plan_C09, "C10": plan_C10, "C11": plan_C11, "C12": plan_C12,
+def plan_C13(run):
+    r = run.model("normstring", "MCNormString", "MCNormString_%s.cfg" % ("t" if run.thorough else "q"), workers=4,
+                  exhaustive_note="all strings up to MaxN characters over 14 character classes; all lengths and multi-byte mixtures around the 16-byte limit; a special character at every position of every length 1..17")
+    scen = run.scen_file("norm", r.replay)
+    tr = run.harness("norm", scen=scen)
+    run.validate(tr, "TraceAux", max_events=20000)
+    run.exhaustive["sweep"] = "every Unicode scalar value (1 112 064) at each swept position, natively, run-length encoded and checked against Normalize"
+
+
+def plan_C15(run):
+    tr = run.harness("rng")
+    run.validate(tr, "TraceAux")
+    # refresh / freshness of challenges inside whole sessions (design level + traces)
+    r = run.model("reconnect", "MCReconnect", "MCReconnect_q.cfg", workers=4)
+    tr = run.harness("auth", n=300 if not run.thorough else 5000, tag="auth")
+    run.validate(tr, "TraceAuth")
+
+
+def plan_C16(run):
+    run.model("pin", "MCPin", "MCPin_%s.cfg" % ("t" if run.thorough else "q"), workers=8, timeout=3400,
+              exhaustive_note="LayoutNat is a permutation with rank r for every residue r of the shards" + (" (all 10! residues)" if run.thorough else ""))
+    tr = run.harness("pin")
+    run.validate(tr, "TraceAux", max_events=400, parallel=8)
+
+
+def plan_C17(run):
+    r = run.model("integrity", "MCIntegrity", "MCIntegrity_%s.cfg" % ("t" if run.thorough else "q"), workers=4,
+                  exhaustive_note="all weak compositions of a byte string of length 0..MaxBytes over five arguments")
+    scen = run.scen_file("integrity", r.replay)
+    tr = run.harness("integrity", scen=scen)
+    run.validate(tr, "TraceAux")
+
+
+def plan_C18(run):
+    run.model("matrix", "MCMatrix", "MCMatrix_%s.cfg" % ("t" if run.thorough else "q"), workers=8,
+              exhaustive_note="all (w,h) with w*h <= MaxCells, digit counts 1..4: cells partition the data in printing order")
+    tr = run.harness("matrix")
+    run.validate(tr, "TraceAux", max_events=1500, parallel=6)
+
+
+PLANS = {"C13": plan_C13, "C15": plan_C15, "C16": plan_C16, "C17": plan_C17, "C18": plan_C18,
+         "C06": plan_C06, "C07": plan_C07, "C08": plan_C08, "C09": plan_C09, "C10": plan_C10, "C11": plan_C11, "C12": plan_C12,
          "C01": plan_C01, "C02": plan_C02, "C03": plan_C03, "C04": plan_C04, "C05": plan_C05, "C14": plan_C14}
